@@ -30,8 +30,10 @@ import numbers
 import os
 import random
 import shutil
+import signal
 import sys
 import tempfile
+import threading
 from datetime import datetime
 from fractions import Fraction
 from pathlib import Path
@@ -221,8 +223,35 @@ class Recorder(TunerCallback):
         self._ev("resume", int(trial.trial_id))
 
 
+SCHED_CALL_TIMEOUT = 30.0  # seconds
+
+
+class SchedulerTimeout(Exception):
+    """a scheduler call did not return (e.g. DEHB `suggest` after a trial failure, known finding of C13); recorded as
+    an exception raised by that call, so the run goes on into the `finally` block instead of hanging the check"""
+
+
+def _raise_sched_timeout(signum, frame):
+    raise SchedulerTimeout(f"scheduler call did not return within {SCHED_CALL_TIMEOUT} s")
+
+
+def timed(fn):
+    def g(*a, **k):
+        use_alarm = threading.current_thread() is threading.main_thread()
+        if use_alarm:
+            old = signal.signal(signal.SIGALRM, _raise_sched_timeout)
+            signal.setitimer(signal.ITIMER_REAL, SCHED_CALL_TIMEOUT)
+        try:
+            return fn(*a, **k)
+        finally:
+            if use_alarm:
+                signal.setitimer(signal.ITIMER_REAL, 0)
+                signal.signal(signal.SIGALRM, old)
+    return g
+
+
 def wrap_scheduler(sch, dlg):
-    o_suggest, o_add, o_result = sch.suggest, sch.on_trial_add, sch.on_trial_result
+    o_suggest, o_add, o_result = timed(sch.suggest), timed(sch.on_trial_add), timed(sch.on_trial_result)
     o_remove, o_complete, o_error = sch.on_trial_remove, sch.on_trial_complete, sch.on_trial_error
 
     def ans_suggest(s):
@@ -1433,6 +1462,10 @@ def histogram(t):
         if isinstance(a, dict) and "results" in a:
             for _, st in a["status"]:
                 h["polled:" + st] = h.get("polled:" + st, 0) + 1
+        if isinstance(a, dict) and "raise" in a and a["raise"] != "InjectedError":
+            # exceptions raised by the real scheduler / backend themselves (incl. the watchdog's SchedulerTimeout)
+            k = "env-raised:" + "/".join(str(x) for x in e["call"][:2]) + ":" + str(a["raise"])
+            h[k] = h.get(k, 0) + 1
     if any(x is not None for x in [t["dlg"].inject_at]) and any(e["ans"] == {"raise": "InjectedError"} for e in t["dlg"].entries):
         h["injected-exception-hit"] = 1
     return h
